@@ -11,7 +11,10 @@ open Fjall Fjall.Spec
     and compactions (any contiguous segment of runs, any watermark, tombstone eviction at the last
     run) placed *anywhere* — every read (get, contains_key, size_of, range scans with any bounds,
     len, is_empty, first / last) returns what a plain sorted map per keyspace returns when the
-    maintenance operations are simply erased. -/
+    maintenance operations are simply erased.  A batch may name a key any number of times (all
+    its items share one seqno; the memtable replaces an entry with the same key and seqno, so the
+    last item wins, as in the map).  `WF` only restricts ingestions, which the real code refuses
+    unless their keys are strictly ascending. -/
 theorem c01_refines_map (prog : List KvOp) (hwf : ∀ op ∈ prog, op.WF) :
     (kvRun {} prog).2 = (specRun (fun _ => []) prog).2 :=
   (kv_run_refines {} _ rel_init prog hwf).1
